@@ -235,7 +235,7 @@ impl Property for C11 {
     fn params(&self, tier: Tier) -> Params {
         Params {
             cases: match tier {
-                Tier::Quick => 1_500,
+                Tier::Quick => 4_000,
                 Tier::Thorough => 30_000,
             },
             max_bytes: 256,
@@ -292,6 +292,30 @@ impl Property for C11 {
                 // alias stability: imports that differ only in alias keep their relative order
                 // (an alias equal to the imported name is redundant and dropped: not generated)
                 let aliases: Vec<String> = (0..(2 + c.below(3))).map(|i| format!("{}{}_al", ["Z", "a", "M", "b0", "B"][c.below(5)], i)).collect();
+                if c.flip() {
+                    // a large group (sorting algorithms switch strategy above 20 elements) in
+                    // which several imports differ only in their alias
+                    let total = 21 + c.below(30);
+                    let n_paths = 2 + c.below(3);
+                    let mut lines: Vec<(String, Option<String>)> = vec![];
+                    for p in 0..n_paths {
+                        for i in 0..(2 + c.below(4)) {
+                            lines.push((format!("shared{p}"), Some(format!("{}{}_{}", ["Z", "a", "M", "b0", "B", "k"][c.below(6)], p, i))));
+                        }
+                    }
+                    let mut k = 0;
+                    while lines.len() < total {
+                        lines.push((format!("{}{k}", ["filler", "Item", "x_", "Z", "a"][c.below(5)]), None));
+                        k += 1;
+                    }
+                    // shuffle (Fisher-Yates driven by the choice sequence)
+                    for i in (1..lines.len()).rev() {
+                        let j = c.below(i + 1);
+                        lines.swap(i, j);
+                    }
+                    let lines: Vec<Value> = lines.into_iter().map(|(p, a)| json!([p, a])).collect();
+                    return json!({"kind": "alias-large", "style_edition": se, "nested": c.flip(), "lines": lines});
+                }
                 json!({"kind": "alias", "style_edition": se, "path": names[0], "aliases": aliases})
             }
         }
@@ -573,6 +597,48 @@ impl Property for C11 {
                 }
                 o.nontrivial = aliases.len() >= 2;
                 o.labels.push("alias-stability".into());
+            }
+            "alias-large" => {
+                let lines: Vec<(String, Option<String>)> = case["lines"].as_array().map(|a| a.iter().map(|p| (p[0].as_str().unwrap_or("x").to_owned(), p[1].as_str().map(|s| s.to_owned()))).collect()).unwrap_or_default();
+                let nested = case["nested"].as_bool().unwrap_or(false);
+                let elem = |(p, a): &(String, Option<String>)| match a {
+                    Some(a) => format!("{p} as {a}"),
+                    None => p.clone(),
+                };
+                let src: String = if nested {
+                    format!("use m::{{{}}};\n", lines.iter().map(elem).collect::<Vec<_>>().join(", "))
+                } else {
+                    lines.iter().map(|l| format!("use m::{};\n", elem(l))).collect()
+                };
+                let r = format_text(&src, &opts);
+                if !r.clean() {
+                    return Outcome::skip("group-does-not-format");
+                }
+                // the aliases of each shared path, in output order
+                let toks: Vec<String> = crate::lex::significant(&r.text).iter().map(|t| t.text(&r.text).to_owned()).collect();
+                let mut paths: Vec<String> = lines.iter().filter(|l| l.1.is_some()).map(|l| l.0.clone()).collect();
+                paths.sort();
+                paths.dedup();
+                for p in &paths {
+                    let want: Vec<String> = lines.iter().filter(|l| &l.0 == p).filter_map(|l| l.1.clone()).collect();
+                    let mut got: Vec<String> = vec![];
+                    for i in 0..toks.len().saturating_sub(2) {
+                        if &toks[i] == p && toks[i + 1] == "as" {
+                            got.push(toks[i + 2].clone());
+                        }
+                    }
+                    if got != want {
+                        return Outcome::fail("alias:relative-order-changed/large-group", format!("imports of `{p}` that differ only in their alias: input order {want:?}, output order {got:?} ({} elements, nested list: {nested})\n{src}--->\n{}", lines.len(), r.text)).nontrivial(true);
+                    }
+                }
+                // nothing lost
+                for l in &lines {
+                    if l.1.is_none() && !toks.iter().any(|t| t == &l.0) {
+                        return Outcome::fail("alias:element-lost/large-group", format!("`{}` is missing\n{src}--->\n{}", l.0, r.text)).nontrivial(true);
+                    }
+                }
+                o.nontrivial = true;
+                o.labels.push(format!("alias-stability-large:{}", if nested { "nested-list" } else { "items" }));
             }
             _ => return Outcome::skip("unknown-kind"),
         }
